@@ -43,28 +43,31 @@ theorem c12_herm_ncv (nev ncv n : Int) (h : herm_ctor_lvalue nev ncv n = Res.ok 
   simp only [herm_ncv_member, decide_eq_true_eq]
   rw [if_neg (by omega)]
 
-/-- general family: accepted ⇔ 1 ≤ nev ≤ n-2 ∧ nev+2 ≤ ncv ≤ n -/
-theorem c12_gen_iff (nev ncv n : Int) :
-    (gen_ctor nev ncv n = Res.ok () ↔ (1 ≤ nev ∧ nev ≤ n - 2 ∧ nev + 2 ≤ ncv ∧ ncv ≤ n)) ∧
-    (gen_ctor nev ncv n ≠ Res.ok () → gen_ctor nev ncv n = Res.throw "std::invalid_argument") := by
+/-- general family, operator with `n` rows and `cols` columns: accepted ⇔ the operator is square ∧ 1 ≤ nev ≤ n-2 ∧ nev+2 ≤ ncv ≤ n,
+    every rejection is `std::invalid_argument` (the squareness clause is the repair of finding F23: before it a 4x7
+    `DenseGenMatProd` was accepted and `init()` read past the end of a vector) -/
+theorem c12_gen_iff (nev ncv n cols : Int) :
+    (gen_ctor nev ncv n cols = Res.ok () ↔ (cols = n ∧ 1 ≤ nev ∧ nev ≤ n - 2 ∧ nev + 2 ≤ ncv ∧ ncv ≤ n)) ∧
+    (gen_ctor nev ncv n cols ≠ Res.ok () → gen_ctor nev ncv n cols = Res.throw "std::invalid_argument") := by
   refine ⟨?_, ?_⟩
-  · simp only [gen_ctor, Bool.or_eq_true, decide_eq_true_eq]
+  · simp only [gen_ctor, Bool.or_eq_true, decide_eq_true_eq, ne_eq]
     constructor
-    · intro h; split at h
-      · exact absurd h (by simp)
-      · split at h
-        · exact absurd h (by simp)
-        · omega
-    · intro h; rw [if_neg (by omega), if_neg (by omega)]
-  · simp only [gen_ctor, Bool.or_eq_true, decide_eq_true_eq]
-    split
-    · intro _; rfl
-    · split
-      · intro _; rfl
-      · intro h; exact absurd rfl h
+    · intro h
+      repeat' (split at h)
+      all_goals first | omega | exact absurd h (by simp)
+    · intro h; rw [if_neg (by omega), if_neg (by omega), if_neg (by omega)]
+  · simp only [gen_ctor, Bool.or_eq_true, decide_eq_true_eq, ne_eq]
+    repeat' split
+    all_goals first | (intro _; rfl) | (intro h; exact absurd rfl h)
 
-theorem c12_gen_ncv (nev ncv n : Int) (h : gen_ctor nev ncv n = Res.ok ()) : gen_ncv_member nev ncv n = ncv := by
-  have := ((c12_gen_iff nev ncv n).1).mp h
+/-- a non-square operator is rejected whatever (nev, ncv) are (F23 repaired), with invalid_argument -/
+theorem c12_gen_nonsquare_rejected (nev ncv n cols : Int) (h : cols ≠ n) :
+    gen_ctor nev ncv n cols = Res.throw "std::invalid_argument" := by
+  have h1 := c12_gen_iff nev ncv n cols
+  exact h1.2 (fun hok => h (h1.1.mp hok).1)
+
+theorem c12_gen_ncv (nev ncv n cols : Int) (h : gen_ctor nev ncv n cols = Res.ok ()) : gen_ncv_member nev ncv n = ncv := by
+  have := ((c12_gen_iff nev ncv n cols).1).mp h
   simp only [gen_ncv_member, decide_eq_true_eq]
   rw [if_neg (by omega)]
 
@@ -169,33 +172,66 @@ theorem c12_wrap_SymShiftInvert_throws (a_rows a_cols b_rows b_cols : Int) :
 
 /-! ### generalized solvers: two operators
 
-  Full statement (NOT provable on the present tree, finding F22): for all sizes `a` of op and `b` of Bop
+  Full statement (provable since the repair of finding F22: every SymGEigs*Op adapter constructor now compares `op.rows()`
+  with `Bop.rows()`): for all sizes `a` of op and `b` of Bop
   `Validates (geigs_solver_ctor mode nev ncv a b) (a = b ∧ 1 ≤ nev ∧ nev ≤ a - 1 ∧ nev < ncv ∧ ncv ≤ a)`.
-  Neither the solver constructors nor the SymGEigs*Op adapters compare `op.rows()` with `Bop.rows()`: the regenerated
-  `geigs_ctor_*` are all `Res.ok ()`, and (nev, ncv) are validated against whichever size the adapter's `rows()` returns.
-  Proved: the equal-size part.  Missing: rejection of `a ≠ b` (the sweep of harness/c12.cpp reports every accepted mismatch). -/
+  Before the repair the regenerated `geigs_ctor_*` were all `Res.ok ()`, (nev, ncv) were validated against whichever size the
+  adapter's `rows()` returns, and `init()` read past the end of the shorter operand (heap-buffer-overflow). -/
 
--- the extra simp lemmas / closing tactics are for guards a later revision may add to the adapters
-set_option linter.unusedSimpArgs false in
-set_option linter.unreachableTactic false in
-theorem c12_geigs_equal_sizes (mode n : Int) : geigs_ctor mode n n = Res.ok () ∧ geigs_rows mode n n = n := by
-  constructor
-  · simp only [geigs_ctor, geigs_ctor_SymGEigsCholeskyOp, geigs_ctor_SymGEigsRegInvOp, geigs_ctor_SymGEigsShiftInvertOp,
-      geigs_ctor_SymGEigsBucklingOp, geigs_ctor_SymGEigsCayleyOp, Bool.or_eq_true, decide_eq_true_eq, ne_eq]
-    repeat' split
-    all_goals first | rfl | omega | simp_all
-  · simp only [geigs_rows, geigs_rows_SymGEigsCholeskyOp, geigs_rows_SymGEigsRegInvOp, geigs_rows_SymGEigsShiftInvertOp,
-      geigs_rows_SymGEigsBucklingOp, geigs_rows_SymGEigsCayleyOp]
-    repeat' split
-    all_goals first | rfl | omega | simp_all
+/-- the regenerated adapter constructors: accepted ⇔ the two operators have the same size; rejection is invalid_argument;
+    the size reported to the solver is then that common size -/
+theorem c12_geigs_adapter (mode a b : Int) (hm : 0 ≤ mode ∧ mode ≤ 4) :
+    (geigs_ctor mode a b = Res.ok () ↔ a = b) ∧
+    (geigs_ctor mode a b ≠ Res.ok () → geigs_ctor mode a b = Res.throw "std::invalid_argument") ∧
+    (a = b → geigs_rows mode a b = a) := by
+  have hcases : mode = 0 ∨ mode = 1 ∨ mode = 2 ∨ mode = 3 ∨ mode = 4 := by omega
+  rcases hcases with h | h | h | h | h <;> subst h <;>
+    simp only [geigs_ctor, geigs_ctor_SymGEigsCholeskyOp, geigs_ctor_SymGEigsRegInvOp, geigs_ctor_SymGEigsShiftInvertOp,
+      geigs_ctor_SymGEigsBucklingOp, geigs_ctor_SymGEigsCayleyOp, geigs_rows, geigs_rows_SymGEigsCholeskyOp,
+      geigs_rows_SymGEigsRegInvOp, geigs_rows_SymGEigsShiftInvertOp, geigs_rows_SymGEigsBucklingOp, geigs_rows_SymGEigsCayleyOp,
+      decide_eq_true_eq, ne_eq] <;>
+    (refine ⟨?_, ?_, ?_⟩
+     · constructor
+       · intro h; by_contra hab; simp [hab] at h
+       · intro hab; simp [hab]
+     · by_cases hab : a = b <;> simp [hab]
+     · intro hab; simp [hab])
 
-/-- every GEigsMode, operators of one common size n: accepted ⇔ 1 ≤ nev ≤ n-1 ∧ nev < ncv ≤ n -/
-theorem c12_geigs_iff_partial (mode nev ncv n : Int) :
+theorem c12_geigs_equal_sizes (mode n : Int) (hm : 0 ≤ mode ∧ mode ≤ 4) : geigs_ctor mode n n = Res.ok () ∧ geigs_rows mode n n = n :=
+  ⟨(c12_geigs_adapter mode n n hm).1.mpr rfl, (c12_geigs_adapter mode n n hm).2.2 rfl⟩
+
+/-- every GEigsMode, FULL statement: accepted ⇔ the two operators have one common size n = a = b ∧ 1 ≤ nev ≤ n-1 ∧ nev < ncv ≤ n;
+    every rejection (mismatched operators included) is `std::invalid_argument` -/
+theorem c12_geigs_iff (mode nev ncv a b : Int) (hm : 0 ≤ mode ∧ mode ≤ 4) :
+    (geigs_solver_ctor mode nev ncv a b = Res.ok () ↔ (a = b ∧ 1 ≤ nev ∧ nev ≤ a - 1 ∧ nev < ncv ∧ ncv ≤ a)) ∧
+    (geigs_solver_ctor mode nev ncv a b ≠ Res.ok () → geigs_solver_ctor mode nev ncv a b = Res.throw "std::invalid_argument") := by
+  obtain ⟨h1, h2, h3⟩ := c12_geigs_adapter mode a b hm
+  by_cases hab : a = b
+  · have hok := h1.mpr hab
+    have hr := h3 hab
+    unfold geigs_solver_ctor
+    rw [hok, hr]
+    have hh := c12_herm_iff nev ncv a
+    exact ⟨⟨fun h => ⟨hab, hh.1.mp h⟩, fun h => hh.1.mpr h.2⟩, hh.2.1⟩
+  · have hne : geigs_ctor mode a b ≠ Res.ok () := fun h => hab (h1.mp h)
+    have hthrow := h2 hne
+    unfold geigs_solver_ctor
+    rw [hthrow]
+    exact ⟨⟨fun h => absurd h (by simp), fun h => absurd h.1 hab⟩, fun _ => rfl⟩
+
+/-- operators of one common size n (the statement that was all that could be proved before the repair of F22) -/
+theorem c12_geigs_iff_partial (mode nev ncv n : Int) (hm : 0 ≤ mode ∧ mode ≤ 4) :
     Validates (geigs_solver_ctor mode nev ncv n n) (1 ≤ nev ∧ nev ≤ n - 1 ∧ nev < ncv ∧ ncv ≤ n) := by
-  have h := c12_geigs_equal_sizes mode n
+  have h := c12_geigs_equal_sizes mode n hm
   unfold geigs_solver_ctor
   rw [h.1, h.2]
   exact ⟨(c12_herm_iff nev ncv n).1, (c12_herm_iff nev ncv n).2.1⟩
+
+/-- mismatched operators are rejected whatever (nev, ncv) are -/
+theorem c12_geigs_mismatch_rejected (mode nev ncv a b : Int) (hm : 0 ≤ mode ∧ mode ≤ 4) (h : a ≠ b) :
+    geigs_solver_ctor mode nev ncv a b = Res.throw "std::invalid_argument" := by
+  have h1 := c12_geigs_iff mode nev ncv a b hm
+  exact h1.2 (fun hok => h (h1.1.mp hok).1)
 
 section field
 variable {K : Type} [Field K] [LinearOrder K] [IsStrictOrderedRing K] (F : FieldFns K)
@@ -250,11 +286,12 @@ theorem c12_no_raw_no_leak (acts : List (Own × Nat)) (h : ∀ a ∈ acts, a.1 =
 theorem c12_no_leak : ∀ p ∈ ctor_raw_new, p.2 = 0 := by decide
 
 -- non-vacuity
-example : herm_ctor_lvalue 3 6 10 = Res.ok () ∧ gen_ctor 3 6 10 = Res.ok () ∧ jd_check_argument 3 10 = Res.ok () := by decide
-example : herm_ctor_lvalue 10 11 10 = Res.throw "std::invalid_argument" ∧ gen_ctor 9 11 10 = Res.throw "std::invalid_argument" := by decide
+example : herm_ctor_lvalue 3 6 10 = Res.ok () ∧ gen_ctor 3 6 10 10 = Res.ok () ∧ jd_check_argument 3 10 = Res.ok () := by decide
+example : herm_ctor_lvalue 10 11 10 = Res.throw "std::invalid_argument" ∧ gen_ctor 9 11 10 10 = Res.throw "std::invalid_argument" ∧ gen_ctor 1 4 4 7 = Res.throw "std::invalid_argument" := by decide
 example : leakedAt [(Own.raw, 1), (Own.raii, 2)] 1 = [1] := by decide
 example : ctor_SymShiftInvert 3 3 3 3 = Res.ok () ∧ ctor_SymShiftInvert 2 2 1 4 = Res.throw "std::invalid_argument" ∧
     ctor_SymShiftInvert 2 2 4 1 = Res.throw "std::invalid_argument" ∧ ctor_DenseCholesky 2 3 = Res.throw "std::invalid_argument" ∧
-    ctor_DenseGenMatProd 2 3 = Res.ok () ∧ geigs_solver_ctor 0 2 4 6 6 = Res.ok () := by decide
+    ctor_DenseGenMatProd 2 3 = Res.ok () ∧ geigs_solver_ctor 0 2 4 6 6 = Res.ok () ∧
+    geigs_solver_ctor 0 2 4 8 5 = Res.throw "std::invalid_argument" ∧ geigs_solver_ctor 2 2 4 5 8 = Res.throw "std::invalid_argument" := by decide
 
 end C12
